@@ -379,6 +379,43 @@ func runPlugins(r *mon.Run) {
 			}
 		}
 	}
+	// ONE plugin recipient value used for several files while the plugin's
+	// answer changes from conversation to conversation: the decision of each
+	// Encrypt depends on what the plugin declared in THAT conversation
+	setScript := func(name string, s spec) {
+		sc := &plug.Script{}
+		sc.Steps = append(sc.Steps, plug.Step{Send: plug.Stanza("recipient-stanza", []string{"0", "fake-" + name}, []byte("0123456789abcdef0123456789abcdef"))})
+		if s.send {
+			sc.Steps = append(sc.Steps, plug.Step{Send: plug.Stanza("labels", s.labels, nil)})
+		}
+		sc.Steps = append(sc.Steps, plug.Step{Send: plug.Stanza("done", nil, nil), NoReply: true})
+		env.SetScript(name, sc)
+	}
+	for _, h := range [][]string{{"a", "none"}, {"a", "empty"}, {"ab", "a"}, {"none", "a", "none"}, {"a", "ba", "none", "ab"}, {"empty", "ab", "empty"}} {
+		long := mkPlugin("lh", nil, false) // the long-lived value
+		for step, cur := range h {
+			setScript("lh", specs[cur])
+			for _, partner := range names {
+				rs := []age.Recipient{long, mkPlugin("lp", specs[partner].labels, specs[partner].send)}
+				if step%2 == 1 {
+					rs[0], rs[1] = rs[1], rs[0]
+				}
+				want := setOf(specs[cur]) == setOf(specs[partner])
+				dst := &mon.ObservingWriter{}
+				_, err := age.Encrypt(dst, rs...)
+				r.Eval(1)
+				desc := fmt.Sprintf("one plugin recipient value, conversations %v, now %s, partner plugin(%s)", h[:step+1], cur, partner)
+				r.Distinct(desc)
+				r.Count("plugin_label_history_cases", 1)
+				if (err == nil) != want {
+					r.Violate("plugin-labels:history", fmt.Sprintf("Encrypt(%s) err=%v, the labels declared in THIS conversation want success=%v", desc, err, want), map[string]any{"case": desc})
+				}
+				if err != nil && dst.Len() != 0 {
+					r.Violate("bytes-on-refusal:plugin:history", fmt.Sprintf("%s: refused after %d bytes", desc, dst.Len()), map[string]any{"case": desc})
+				}
+			}
+		}
+	}
 	// plugin recipients that FAIL to wrap the file key, in every way a session
 	// can fail — also after a stanza was already handed over: a recipient that
 	// fails makes Encrypt refuse, with nothing written
